@@ -44,22 +44,25 @@ func PathFor(in interface{}) (string, error) {
 		return join(s.ToPath()), nil
 	}
 
+	rv := reflect.Indirect(reflect.ValueOf(in))
+	if !rv.IsValid() {
+		return "", errors.New("can not calculate path to nil")
+	}
+
 	ni, err := name.Interface(in)
 	if err != nil {
 		return "", err
 	}
 
-	rv := reflect.Indirect(reflect.ValueOf(in))
-
 	to := rv.Type()
 	k := to.Kind()
 	switch k {
 	case reflect.Struct:
-		f := rv.FieldByName("Slug")
+		f := fieldByName(rv, "Slug")
 		if f.IsValid() {
 			return byField(ni, f)
 		}
-		f = rv.FieldByName("ID")
+		f = fieldByName(rv, "ID")
 		if f.IsValid() {
 			return byField(ni, f)
 		}
@@ -81,6 +84,20 @@ func PathFor(in interface{}) (string, error) {
 	}
 
 	return "", fmt.Errorf("could not convert %T to path", in)
+}
+
+// fieldByName is rv.FieldByName(name) for a struct rv, except that a field promoted through an
+// embedded pointer that is nil counts as absent (the zero Value) instead of panicking.
+func fieldByName(rv reflect.Value, name string) reflect.Value {
+	sf, ok := rv.Type().FieldByName(name)
+	if !ok {
+		return reflect.Value{}
+	}
+	f, err := rv.FieldByIndexErr(sf.Index)
+	if err != nil {
+		return reflect.Value{}
+	}
+	return f
 }
 
 func byField(ni name.Ident, f reflect.Value) (string, error) {
